@@ -99,3 +99,27 @@ package cache
 //@ func (*SubCache).ResolveExcerpt
 //@   trusted
 //@   modifies nothing
+
+// The snapshot wrapper (C10, "the state the cache maintains incrementally equals a compilation from
+// scratch"): with a cached snapshot, Append performs exactly the loop body of Compile - one Apply of the
+// new operation on the cached snapshot - and without one it applies nothing (the next Compile starts from
+// scratch); a failed Commit drops the cached snapshot; the wrapper's mutex is released on every path.
+//@ func (*withSnapshot).Append
+//@   props C10 C18
+//@   requires ws != nil && !sync.mheld[&ws.mu]
+//@   let had = old(ws.snap) != nil
+//@   let c0 = old(dag.applyCount)
+//@   ensures [incremental-apply] had ==> dag.applyCount == c0 + 1 && dag.applied[c0] == op && ws.snap == old(ws.snap)
+//@   ensures [no-apply-without-snapshot] !had ==> dag.applyCount == c0 && ws.snap == nil
+//@   ensures [lock-balanced] forall m *sync.Mutex :: { sync.mheld[m] } sync.mheld[m] == old(sync.mheld[m])
+//@ func (*withSnapshot).Commit
+//@   props C10 C18
+//@   requires ws != nil && !sync.mheld[&ws.mu]
+//@   ensures [failed-commit-drops-snapshot] result != nil ==> ws.snap == nil
+//@   ensures [commit-keeps-snapshot] result == nil ==> ws.snap == old(ws.snap)
+//@   ensures [lock-balanced] forall m *sync.Mutex :: { sync.mheld[m] } sync.mheld[m] == old(sync.mheld[m])
+//@ func (*withSnapshot).Compile
+//@   props C10 C18
+//@   requires ws != nil && !sync.mheld[&ws.mu]
+//@   ensures [cached-after] ws.snap != nil && (old(ws.snap) != nil ==> ws.snap == old(ws.snap))
+//@   ensures [lock-balanced] forall m *sync.Mutex :: { sync.mheld[m] } sync.mheld[m] == old(sync.mheld[m])
